@@ -1118,6 +1118,139 @@ fn undefined_programs(rng: &mut Rng, thorough: bool) -> Vec<Vec<String>> {
     out
 }
 
+// ------------------------------------------------------------------------------------------
+// Failing expansion inside a scan: wherever a scanner expands ahead, the next token is made to
+// fail while it is expanded. A primitive that swallows the resulting `Err(ShutdownSignal)`
+// breaks the contract of `protocol_safe`; the text that follows makes the ignored signal
+// surface ("shutdown signal ignored") at the next error or at the end-of-input shutdown.
+// ------------------------------------------------------------------------------------------
+
+/// Statements cut into pieces; the failing token is inserted after every piece (so after signs,
+/// integer digits, the decimal point, fraction digits, each letter of a unit or keyword,
+/// `plus`/`minus`/`by`/`to`/`=`, register indices, operands of conditionals, `\the`,
+/// `\expandafter`, prefixes, file names, ...).
+const SCAN_FRAMES: &[&[&str]] = &[
+    &["\\count1", "=", "-", "-", "1", "2", " "],
+    &["\\count1=", "'", "7", "7", " "],
+    &["\\count1=", "\"", "A", "F", " "],
+    &["\\count1=", "`", "a", " "],
+    &["\\count1=", "\\count", "1", " "],
+    &["\\count1=", "-", "\\dimen2", " "],
+    &["\\count", "1", "2", "=", "5", " "],
+    &["\\dimen0", "=", "-", "1", ".", "2", "5", "p", "t", " "],
+    &["\\dimen0=", "3", ",", "1", "i", "n", " "],
+    &["\\dimen0=", ".", "5", "t", "r", "u", "e", " ", "c", "m", " "],
+    &["\\dimen0=", "2", "e", "m", " "],
+    &["\\dimen0=", "1", ".", "5", "\\dimen2", " "],
+    &["\\dimen0=", "\\count1", "\\dimen2", " "],
+    &["\\dimen0=", "0", ".", "9", "9", "9", "9", "9", "\\count1", " "],
+    &["\\dimen", "0", "=", "\\skip0", " "],
+    &["\\skip0", "=", "1", ".", "5", "pt", " ", "plus", " ", "2", ".", "5", "f", "i", "l", "l", " ", "minus", " ", "-", "3", "pt", " "],
+    &["\\skip0=", "1pt", " p", "l", "u", "s", "2", "pt", " m", "i", "n", "u", "s", ".", "5", "fil", " "],
+    &["\\skip0=", "-", "\\skip0", " "],
+    &["\\skip0=0pt plus ", "\\count1", "\\dimen2", " minus ", "1", "\\skip0", " "],
+    &["\\advance", "\\count1", " b", "y", " ", "-", "3", " "],
+    &["\\advance", "\\dimen0", " by", "1", ".", "5", "pt", " "],
+    &["\\advance", "\\skip0", " by", "1pt", " plus", "1", ".", "0", "fil", " "],
+    &["\\multiply", "\\dimen0", " by", "2", " "],
+    &["\\divide", "\\skip0", "by", "-", "2", " "],
+    &["\\global", "\\advance", "\\count", "1", " by", "1", " "],
+    &["\\global", "\\long", "\\def", "\\m", "#1", "{x}"],
+    &["\\read", "1", " t", "o", " ", "\\x"],
+    &["\\openin", "1", "=", "a", ".", "t", "ex", " "],
+    &["\\input", " ", "a", ".", "tex", " "],
+    &["\\closein", "1", " "],
+    &["\\ifeof", "1", " ", "a", "\\else", "b", "\\fi", " "],
+    &["\\ifnum", "1", "2", "<", "-", "3", " ", "a", "\\else", "b", "\\fi", " "],
+    &["\\ifnum", "\\count1", "=", "\\dimen2", "a", "\\fi", " "],
+    &["\\ifodd", "-", "3", " ", "a", "\\fi", " "],
+    &["\\ifcase", "-", "1", " ", "a", "\\or", "b", "\\else", "c", "\\fi", " "],
+    &["\\ifcase", "2", " ", "a", "\\or", "b", "\\or", "c", "\\fi", " "],
+    &["\\iftrue", "a", "\\else", "b", "\\fi", " "],
+    &["\\iffalse", "a", "\\else", "b", "\\fi", " "],
+    &["\\the", "\\count", "1", " "],
+    &["\\the", "\\catcode", "`", "a", " "],
+    &["\\the", "\\J", "1", " "],
+    &["\\the", "\\toks", "1", " "],
+    &["\\expandafter", "\\relax", "\\relax", " "],
+    &["\\expandafter", "\\the", "\\count1", " "],
+    &["\\expandafter", "\\expandafter", "\\expandafter", "\\a", "\\a", " "],
+    &["\\noexpand", "\\a", " "],
+    &["\\catcode", "`", "\\a", "=", "1", "2", " "],
+    &["\\catcode", "6", "5", "=", "1", "1", " "],
+    &["\\mathcode", "`", "a", "=", "\"", "7", "F", " "],
+    &["\\chardef", "\\C", "=", "6", "5", " "],
+    &["\\mathchardef", "\\M", "=", "7", " "],
+    &["\\countdef", "\\X", "=", "5", " "],
+    &["\\toksdef", "\\T", "=", "3", " "],
+    &["\\toks", "1", "=", "{x}"],
+    &["\\toks1", "=", "\\toks", "2", " "],
+    &["\\let", "\\x", "=", " ", "a"],
+    &["\\endlinechar", "=", "-", "1", " "],
+    &["\\tracingmacros", "=", "2", " "],
+    &["\\globaldefs", "=", "-", "1", " "],
+    &["\\year", "=", "\\month", " "],
+    &["\\newInt", "\\I", " "],
+    &["\\newIntArray", "\\K", "3", " "],
+    &["\\J", "1", "=", "-", "4", " "],
+    &["\\dumpFormat", "=", "1", " "],
+    &["\\b", "{x}", " "],
+    &["\\c", "x", "y", " "],
+];
+
+/// (the failing token(s), must it be the last thing in the input?)
+const FAILERS: &[(&str, bool)] = &[
+    ("\\else", false),
+    ("\\fi", false),
+    ("\\or", false),
+    ("\\input doesNotExist ", false),
+    ("\\input x:a ", false),
+    ("\\delim", false),   // delimited argument never closed: end of input while expanding
+    ("\\undefinedcs", false),
+    ("\\ifnum 1z2 ", false), // recoverable error while a conditional is expanded
+    ("\\ifodd x", false),
+    ("\\the\\relax", false),
+    ("\\the a", false),
+    ("\\ifcase\\fi", false),
+    ("\\argeof", true),   // undelimited argument at end of input
+    ("\\expandafter", true),
+    ("\\expandafter\\a", true),
+    ("\\noexpand", true),
+    ("\\the", true),
+    ("\\input", true),
+    ("\\ifnum", true),
+    ("\\ifnum1<", true),
+    ("\\ifcase", true),
+    ("\\the\\count", true),
+];
+
+const SCAN_PRE: &str = "\\def\\delim#1\\never{}\\def\\argeof#1{}\\def\\a{}\\def\\b#1{#1}\\def\\c#1#2{#2#1}\\count1=5 \\dimen2=1pt \\newIntArray\\J 3 \\openin1=a ";
+
+const SCAN_TAILS: &[&str] = &["", " pt more text {\\count2=x }\\undefinedfinal", "pt text"];
+
+fn failing_scan_programs(rng: &mut Rng, thorough: bool) -> Vec<Vec<String>> {
+    let mut out = vec![];
+    for frame in SCAN_FRAMES {
+        for k in 1..=frame.len() {
+            let head: String = frame[..k].concat();
+            let rest: String = frame[k..].concat();
+            for (f, last) in FAILERS {
+                if *last {
+                    out.push(vec![SCAN_PRE.to_string(), head.clone(), f.to_string()]);
+                    continue;
+                }
+                let pick = rng.below(SCAN_TAILS.len() as u64) as usize;
+                for (ti, t) in SCAN_TAILS.iter().enumerate() {
+                    if thorough || ti == pick {
+                        out.push(vec![SCAN_PRE.to_string(), head.clone(), f.to_string(), rest.clone(), t.to_string()]);
+                    }
+                }
+            }
+        }
+    }
+    out
+}
+
 struct C09 {
     driver_path: String,
     debug: bool,
@@ -1430,7 +1563,7 @@ impl Property for C09 {
         "C09"
     }
     fn rule(&self) -> String {
-        "run: grammar-generated TeX programs over the full installed vocabulary (enumerated from texlang_stdlib::built_in_commands at run time, + \\par, \\newline), user macros, braces, boundary numbers/dimensions/indices/character codes, non-ASCII text, ^^ notation, token soup, every statement-prefix of a sample of programs, each in errorstop/scroll/nonstop/batch mode; plus undefined commands of every shape (control words/symbols with ASCII and 2/3/4-byte letters, names close to and far from primitives, empty and very long names, ASCII and non-ASCII active characters incl. combining marks, active space and end of line) in 34 contexts (bare, at end of input, after a group that defined them, after \\let to an undefined command, after \\the/\\advance/\\count/\\expandafter/\\noexpand/\\if.., in macro bodies, arguments and delimiters, as file names, ...) at line start / after multi-byte text / on later lines, in all four modes; plus extreme register states: \\count1, \\dimen0 and each component of \\skip0 (finite and fil/fill/filll) driven to -2^31, -2^31+1, 2^31-1, +-2^30, +-(2^30-1) by wrapping \\advance / \\multiply chains, then every one of ~130 arithmetic, scanning, comparison, index and code uses of that register, in all four modes; non-trivial = the run ended within the step budget (ok, error or panic). proto: every event sequence of length <= 4 plus random ones. chr/uint/ifcase: boundary values.".into()
+        "run: grammar-generated TeX programs over the full installed vocabulary (enumerated from texlang_stdlib::built_in_commands at run time, + \\par, \\newline), user macros, braces, boundary numbers/dimensions/indices/character codes, non-ASCII text, ^^ notation, token soup, every statement-prefix of a sample of programs, each in errorstop/scroll/nonstop/batch mode; plus undefined commands of every shape (control words/symbols with ASCII and 2/3/4-byte letters, names close to and far from primitives, empty and very long names, ASCII and non-ASCII active characters incl. combining marks, active space and end of line) in 34 contexts (bare, at end of input, after a group that defined them, after \\let to an undefined command, after \\the/\\advance/\\count/\\expandafter/\\noexpand/\\if.., in macro bodies, arguments and delimiters, as file names, ...) at line start / after multi-byte text / on later lines, in all four modes; plus a failing expansion (unmatched \\else/\\fi/\\or, \\input of a missing file, unterminated macro argument, undefined command, failing conditional, \\the of a non-variable, and \\expandafter/\\noexpand/\\the/\\input/\\ifnum at end of input) inserted after every piece of 66 statements cut at every look-ahead position of the scanners (signs, digits, decimal point, fraction digits, unit and keyword letters, =, register indices, conditional operands, \\the, \\expandafter, prefixes, file names), followed by more text and a final error or the end of input, in errorstop mode and one recovering mode in rotation (thorough: all four); plus extreme register states: \\count1, \\dimen0 and each component of \\skip0 (finite and fil/fill/filll) driven to -2^31, -2^31+1, 2^31-1, +-2^30, +-(2^30-1) by wrapping \\advance / \\multiply chains, then every one of ~130 arithmetic, scanning, comparison, index and code uses of that register, in all four modes; non-trivial = the run ended within the step budget (ok, error or panic). proto: every event sequence of length <= 4 plus random ones. chr/uint/ifcase: boundary values.".into()
     }
     fn builtin_corpus(&self) -> Vec<String> {
         let mut v = vec![];
@@ -1606,6 +1739,16 @@ impl Property for C09 {
                     out.push(format!("run {mode0} {}", enc(&p)));
                     k = k.saturating_sub(step);
                 }
+            }
+        }
+        // --- a failing expansion at every look-ahead position of the scanners, in all four modes
+        let mut r4 = rng.fork();
+        for (i, parts) in failing_scan_programs(&mut r4, ctx.thorough).into_iter().enumerate() {
+            // quick: errorstop (where every recoverable failure is fatal too) and one of the
+            // recovering modes in rotation; thorough: all four
+            let modes: Vec<&str> = if ctx.thorough { MODES.to_vec() } else { vec!["e", MODES[1 + i % 3]] };
+            for m in modes {
+                out.push(format!("run {m} {}", enc_parts(&parts)));
             }
         }
         // --- undefined commands of every shape x context x placement, in all four modes
